@@ -183,8 +183,33 @@ fn per_process_order<T>(mut items: Vec<T>) -> Vec<T> {
     items
 }
 
+/// A complete detect + build invocation for a different buildpack, platform, target and app in this
+/// very process, before the one under test: whatever the library remembers from one invocation
+/// (a cached buildpack directory, descriptor, target ...) must not leak into the next.
+fn decoy_invocation(out: &std::path::Path) {
+    let d = out.join("decoy");
+    for s in ["bp", "platform/env", "layers", "app", "out"] { std::fs::create_dir_all(d.join(s)).unwrap(); }
+    std::fs::write(d.join("bp/buildpack.toml"), "api = \"0.10\"\n\n[buildpack]\nid = \"decoy/buildpack\"\nversion = \"9.9.9\"\nname = \"decoy\"\n\n[[targets]]\nos = \"decoy-os\"\n\n[metadata]\ndecoy = true\n").unwrap();
+    std::fs::write(d.join("platform/env/DECOY_VARIABLE"), "decoy").unwrap();
+    std::fs::write(d.join("plan.toml"), "[[entries]]\nname = \"decoy-entry\"\n").unwrap();
+    std::fs::write(d.join("layers/store.toml"), "[metadata]\ndecoy = \"store\"\n").unwrap();
+    let vars: [(&str, &str); 6] = [("CNB_BUILDPACK_DIR", ""), ("CNB_TARGET_OS", "decoy-os"), ("CNB_TARGET_ARCH", "decoy-arch"), ("CNB_TARGET_ARCH_VARIANT", "decoy-variant"), ("CNB_TARGET_DISTRO_NAME", "decoy-distro"), ("CNB_TARGET_DISTRO_VERSION", "0.0")];
+    let saved: Vec<(&str, Option<std::ffi::OsString>)> = vars.iter().map(|(k, _)| (*k, std::env::var_os(k))).collect();
+    let cwd = std::env::current_dir().ok();
+    for (k, v) in vars { unsafe { if k == "CNB_BUILDPACK_DIR" { std::env::set_var(k, d.join("bp")) } else { std::env::set_var(k, v) } } }
+    let _ = std::env::set_current_dir(d.join("app"));
+    let bp = Vbp { script: serde_json::json!({"detect": "pass"}), out: d.join("out") };
+    let r1 = libcnb::libcnb_runtime_detect(&bp, libcnb::DetectArgs { platform_dir_path: d.join("platform"), build_plan_path: d.join("detect-plan.toml") });
+    let r2 = libcnb::libcnb_runtime_build(&bp, libcnb::BuildArgs { layers_dir_path: d.join("layers"), platform_dir_path: d.join("platform"), buildpack_plan_path: d.join("plan.toml") });
+    if !matches!(r1, Ok(0)) || !matches!(r2, Ok(0)) { eprintln!("HARNESS: the decoy invocation failed: {:?} {:?}", r1.map_err(|e| format!("{e:?}")), r2.map_err(|e| format!("{e:?}"))); }
+    for (k, v) in saved { unsafe { match v { Some(v) => std::env::set_var(k, v), None => std::env::remove_var(k) } } }
+    if let Some(c) = cwd { let _ = std::env::set_current_dir(c); }
+    let _ = std::fs::remove_dir_all(&d);
+}
+
 fn main() {
     let out = PathBuf::from(std::env::var_os("VBP_OUT").expect("VBP_OUT"));
     let script: Value = serde_json::from_str(&std::fs::read_to_string(std::env::var_os("VBP_SCRIPT").expect("VBP_SCRIPT")).unwrap()).unwrap();
+    decoy_invocation(&out);
     libcnb::libcnb_runtime(&Vbp { script, out });
 }
